@@ -160,7 +160,7 @@ func checkBlockOrderWriters(p *core.Program, r *core.Report) {
 			}
 			n++
 			key := "block-order/" + fname(fn) + "/writes-CanonicalBlocks"
-			rule := "whoever changes a bundle's block list re-sorts it (payload last), removes one block order-preservingly, or is the decoder whose result must pass CheckValid"
+			rule := "whoever changes a bundle's block list re-sorts it (payload last), removes one block order-preservingly, or is a decoder/producer whose result must pass CheckValid"
 			switch {
 			case isOrderPreservingRemoval(st.Val):
 				r.OK(key, rule, p.Pos(st.Pos()), "order-preserving removal append(s[:i], s[i+1:]...)")
@@ -171,7 +171,27 @@ func checkBlockOrderWriters(p *core.Program, r *core.Report) {
 					c, ok := i.(ssa.CallInstruction)
 					return ok && core.NameIs(core.CalleeName(c), bp7+".Bundle.sortBlocks")
 				}, core.IsReturn)
-				r.Check(ok, key, rule, p.Pos(st.Pos()), "followed by sortBlocks() on every path", "the block list is changed without re-sorting: the payload block may not be last any more")
+				how := "followed by sortBlocks() on every path"
+				if !ok {
+					// a producer that builds the list in order and validates the result: every
+					// return that is not an error return passes Bundle.CheckValid (payload last)
+					ok, _ = core.MustPassAfter(st, func(i ssa.Instruction) bool {
+						c, ok := i.(ssa.CallInstruction)
+						return ok && core.NameIs(core.CalleeName(c), bp7+".Bundle.CheckValid")
+					}, func(i ssa.Instruction) bool {
+						if !core.IsReturn(i) {
+							return false
+						}
+						for _, cd := range core.DominatingConds(i.Block()) {
+							if x, isNil, isCmp := core.NilCmp(cd); isCmp && !isNil && isErrorType(x.Type()) {
+								return false // error return
+							}
+						}
+						return true
+					})
+					how = "every non-error return passes Bundle.CheckValid (which requires the payload block to be last); C02 checks that the verdict is returned"
+				}
+				r.Check(ok, key, rule, p.Pos(st.Pos()), how, "the block list is changed without re-sorting or validating: the payload block may not be last any more")
 			}
 		})
 	}
